@@ -569,6 +569,44 @@ static void free_all(void)
 /* ------------------------------------------------------------------ */
 static int retrying = 0;	/* the current line is the retry of a faulted one */
 static int fault_retry = 0;
+
+/*
+ * What probe_all() needs to know: the parameter handles the script created
+ * and a few frequencies it used (first / middle / last value of every real
+ * vector buffer).
+ */
+#define MAX_PROBE_PARAMS 1024
+#define MAX_PROBE_FREQS 24
+static struct { var_t *vc; int handle; } probe_params[MAX_PROBE_PARAMS];
+static int n_probe_params = 0;
+static double probe_freqs[MAX_PROBE_FREQS];
+static int n_probe_freqs = 0;
+
+static void note_param(var_t *vc, int handle)
+{
+    if (handle >= 0 && n_probe_params < MAX_PROBE_PARAMS) {
+	probe_params[n_probe_params].vc = vc;
+	probe_params[n_probe_params].handle = handle;
+	++n_probe_params;
+    }
+}
+static void note_freqs(const double *v, int n)
+{
+    int idx[3] = { 0, n / 2, n - 1 };
+
+    for (int k = 0; k < 3 && n > 0; ++k) {
+	double f = v[idx[k]];
+	int seen = 0;
+
+	for (int i = 0; i < n_probe_freqs; ++i)
+	    if (probe_freqs[i] == f)
+		seen = 1;
+	if (!seen)
+	    probe_freqs[n_probe_freqs++ % MAX_PROBE_FREQS] = f;
+	if (n_probe_freqs >= 2 * MAX_PROBE_FREQS)
+	    n_probe_freqs = MAX_PROBE_FREQS;
+    }
+}
 #include "ops_misc.inc"
 #include "ops_vnadata.inc"
 #include "ops_prop.inc"
@@ -576,6 +614,52 @@ static int fault_retry = 0;
 #include "ops_conv.inc"
 #include "ops_peek.inc"
 #include "opsx_all.inc"	/* generated: every harness/opsx_*.inc */
+
+/*
+ * probe_all: "all objects remain usable".  Called between a call that failed
+ * under an injected allocation fault and its retry: every live object answers
+ * every getter (the dumps the observer ops use), and every parameter handle
+ * the script created is evaluated at a few frequencies.  Results are thrown
+ * away -- what counts is that nothing crashes and no sanitizer fires on the
+ * state the failed call left behind.  No allocation is counted or failed
+ * while probing.
+ */
+static void probe_all(void)
+{
+    sb_t tmp = {0};
+    int nf = n_probe_freqs < MAX_PROBE_FREQS ? n_probe_freqs : MAX_PROBE_FREQS;
+
+    ++verif_alloc_suspend;
+    for (var_t *v = vars; v != NULL; v = v->next) {
+	sb_reset(&tmp);
+	switch (v->kind) {
+	case K_VD:
+	    if (v->alive)
+		dump_vnadata_i(&tmp, v->ptr);
+	    break;
+	case K_PR:
+	    dump_prop(&tmp, v->root, 0, 0);
+	    break;
+	case K_VC:
+	    if (v->alive)
+		dump_vnacal_sb(&tmp, v->ptr);
+	    break;
+	default:
+	    break;
+	}
+    }
+    for (int i = 0; i < n_probe_params; ++i) {
+	var_t *vc = probe_params[i].vc;
+
+	if (vc == NULL || !vc->alive)
+	    continue;
+	for (int k = 0; k < nf; ++k)
+	    (void)vnacal_get_parameter_value(vc->ptr, probe_params[i].handle,
+		    probe_freqs[k]);
+    }
+    --verif_alloc_suspend;
+    free(tmp.s);
+}
 
 typedef void op_fn(ctx_t *c);
 static const struct optab {
@@ -697,6 +781,8 @@ static void end_case(void)
 {
     int leaks = 0;
     free_all();
+    n_probe_params = 0;
+    n_probe_freqs = 0;
 #ifdef HAVE_LSAN
     if (leakcheck) {
 	scrub_stack();
@@ -896,6 +982,7 @@ retry:
 	emit_event(c, faulted, a0, a1);
 	if (will_retry) {
 	    will_retry = 0;
+	    probe_all();
 	    /* re-execute the same line once with the fault disarmed */
 	    memcpy(line, copy, strlen(copy) + 1);
 	    free(copy);
